@@ -70,6 +70,9 @@ def build_series(values, kind):
         return pd.Series(values, dtype=object)
     if kind == "strdtype":
         return pd.Series(values, dtype="str")
+    if kind == "nastring":
+        # the nullable pandas string dtype (missing values are pd.NA)
+        return pd.Series(values, dtype="string")
     if kind == "datetime":
         return pd.Series([pd.NaT if v is None else pd.Timestamp(v) for v in values],
                          dtype="datetime64[ns]")
@@ -86,8 +89,21 @@ def build_table(rec):
     df = pd.DataFrame(data, columns=names)
     idx = rec.get("index")
     if idx is not None and len(idx) == len(df):
-        df.index = pd.Index(idx)
+        df.index = build_index(idx, rec.get("index_name"))
     return df
+
+
+def build_index(labels, name=None):
+    """Index from JSON-able labels: lists become MultiIndex tuples, 'ts:...' strings a
+    DatetimeIndex, anything else a plain Index."""
+    if labels and all(isinstance(x, (list, tuple)) for x in labels):
+        ix = pd.MultiIndex.from_tuples([tuple(x) for x in labels])
+        if name is not None:
+            ix.names = [name, None] if ix.nlevels == 2 else [name] + [None] * (ix.nlevels - 1)
+        return ix
+    if labels and all(isinstance(x, str) and x.startswith("ts:") for x in labels):
+        return pd.DatetimeIndex([pd.Timestamp(x[3:]) for x in labels], name=name)
+    return pd.Index(labels, name=name)
 
 
 def build_pair(case):
